@@ -12,6 +12,7 @@ def run(F, G, tier, seed):
     scopes.lexer_scope(chk, F, G, T)
     from ..lexer import Lexer
     frontends.run_idchars(chk, F, Lexer(F))
+    frontends.run_diagpair(chk, F, G)
     return chk.finish(
         "Decides the front-end conformance clauses of C05: both front ends are drivers of one builder interface, so "
         "the input format can only show where they issue different callbacks or arguments for the same construct, or "
